@@ -2457,6 +2457,9 @@ class Signature(object):
         """
         if isinstance(txid, bytes):
             txid = txid.hex()
+        else:
+            # The nonce is derived from the hexadecimal text: same message, same text
+            txid = txid.lower()
         if len(txid) > 64:
             txid = double_sha256(bytes.fromhex(txid), as_hex=True)
         if not isinstance(private, (Key, HDKey)):
